@@ -353,6 +353,13 @@ class EList(ECollection, list):
         self.owner._isset[self.feature] = None
 
 
+    def __delitem__(self, i):
+        if isinstance(i, slice):
+            self[i] = []
+        else:
+            self.pop(i)
+
+
 class EBag(EList):
     pass
 
